@@ -28,7 +28,8 @@ pub trait RollingValidCmp<T: IsNone>: Vec1View<T> {
         T::Inner: Number,
         f64: Cast<U>,
     {
-        let window = min(self.len(), window);
+        // clamp the window to the series, but keep it positive for an empty series
+        let window = if self.is_empty() { window } else { min(self.len(), window) };
         let mut min: Option<T::Inner> = None;
         let mut min_idx: Option<usize> = None;
         let mut n = 0;
@@ -108,7 +109,8 @@ pub trait RollingValidCmp<T: IsNone>: Vec1View<T> {
         T::Inner: Number,
         Option<T::Inner>: Cast<U>,
     {
-        let window = min(self.len(), window);
+        // clamp the window to the series, but keep it positive for an empty series
+        let window = if self.is_empty() { window } else { min(self.len(), window) };
         let mut min: Option<T::Inner> = None;
         let mut min_idx: Option<usize> = None;
         let mut n = 0;
@@ -182,7 +184,8 @@ pub trait RollingValidCmp<T: IsNone>: Vec1View<T> {
         T::Inner: Number,
         f64: Cast<U>,
     {
-        let window = min(self.len(), window);
+        // clamp the window to the series, but keep it positive for an empty series
+        let window = if self.is_empty() { window } else { min(self.len(), window) };
         let mut max: Option<T::Inner> = None;
         let mut max_idx: Option<usize> = None;
         let mut n = 0;
@@ -262,7 +265,8 @@ pub trait RollingValidCmp<T: IsNone>: Vec1View<T> {
         T::Inner: Number,
         Option<T::Inner>: Cast<U>,
     {
-        let window = min(self.len(), window);
+        // clamp the window to the series, but keep it positive for an empty series
+        let window = if self.is_empty() { window } else { min(self.len(), window) };
         let mut max: Option<T::Inner> = None;
         let mut max_idx: Option<usize> = None;
         let mut n = 0;
@@ -340,7 +344,8 @@ pub trait RollingValidCmp<T: IsNone>: Vec1View<T> {
         T::Inner: Number,
         f64: Cast<U>,
     {
-        let window = min(self.len(), window);
+        // clamp the window to the series, but keep it positive for an empty series
+        let window = if self.is_empty() { window } else { min(self.len(), window) };
         let min_periods = min_periods.unwrap_or(window / 2);
         let w_m1 = window - 1; // window minus one
         let mut n = 0usize; // keep the num of valid elements
